@@ -77,6 +77,14 @@ Definition judge_corr (c : ccase) : N :=
        (negb (match r_aliases r with [] => true | _ => false end) || is_ext (the_cond r)
         || (2 <=? List.length (referenced r))%nat || negb (match P with [] => true | _ => false end)).
 
+(* suite multi: several correlation rules converted through one backend / pipeline object; every one
+   of them is judged on its own by the unchanged model and specification, so its query must not
+   depend on the other correlation rules of the rule set or on what was converted before *)
+Definition judge_multi (l : list ccase) : N :=
+  let bs := map judge_corr l in
+  bits (forallb (fun b => N.testbit b 0) bs) (forallb (fun b => N.testbit b 1) bs)
+       (forallb (fun b => N.testbit b 2) bs) (existsb (fun b => N.testbit b 3) bs).
+
 (* used by --replay *)
 Definition model_corr (c : ccase) : outcome str :=
   match convc (cc_K c) (cc_P c) (cc_r c) with Ok t => Ok (showc t) | SigmaErr a => SigmaErr a | Crash a => Crash a end.
